@@ -9,7 +9,7 @@ ORACLES = {
     "C01.no_exception": "no add / push / clear / export / load / reopen / union call raises",
 }
 RULE = ("Hypothesis draws kind in {BloomFilter, BloomFilterOnDisk, ExpandingBloomFilter}, a geometry (est 1..300 skewed small, "
-        "fpr from awkward values / 10^-u (u<=44) / i/2000; expanding: est 1..12), one of 12 hash strategies (fnv-1a default, md5, "
+        "fpr from awkward values / 10^-u (u<=44) / i/2000 / 2^-(j/2); expanding: est 1..12), one of 12 hash strategies (fnv-1a default, md5, "
         "sha256, both decorators, hand-written incl. degenerate ones whose positions coincide), a pool of 2-10 str/bytes keys "
         "(ASCII, Latin-1, BMP, astral, empty, all byte values) and 3-40 operations: add, forced add, push, clear, reload through a "
         "channel (bytes/frombytes, export path + filepath=, Path object, file object, export_hex + hex_string=, in-memory -> on-disk, "
